@@ -1,6 +1,6 @@
 from abc import ABC, abstractmethod
 from typing import Union
-from numpy import array, ndarray, sqrt, eye, isscalar
+from numpy import array, ndarray, sqrt, eye, isscalar, ndim
 from numpy.random import Generator
 from numpy.linalg import cholesky
 from scipy.linalg import solve_triangular
@@ -67,7 +67,7 @@ def get_particle_mass(
     # the mass is held as a plain float / a contiguous float64 array of its own, which is
     # what save() writes and load() restores: a numpy scalar, an integer array or a strided
     # view of a larger array would make a chain compute differently from its reloaded copy
-    if isscalar(inverse_mass):
+    if isscalar(inverse_mass) or (isinstance(inverse_mass, ndarray) and ndim(inverse_mass) == 0):
         return ScalarMass(float(inverse_mass), n_parameters)
 
     if not isinstance(inverse_mass, ndarray):
